@@ -378,6 +378,11 @@ def check_exhaustive_sweep(facts, rep):
                 for e in p.calls():
                     if e.name.endswith('into_iter') and e.args and sk(e.args[0]).startswith('['):
                         pos.add(sk(e.args[0]))
+                    # (0..3).for_each(|j| traverse(j)) and the like
+                    if e.name.split('::')[-1] == 'for_each' and e.args:
+                        m = re.match(r'Range::Range\{start: (\d+), end: (\d+)\}$', sk(e.args[0]))
+                        if m:
+                            pos.add('[%s]' % ', '.join(str(x) for x in range(int(m.group(1)), int(m.group(2)))))
                     if e.name.split('::')[-1] == 'len' and e.args and 'arg1.data' in sk(e.args[0]):
                         n_def.add('len(data)')
         if pos != want_pos or n_def != {'len(data)'}:
